@@ -4,13 +4,17 @@
 
    Sequential events, one abstract step each:
      reset{period,quota,align,keys}   fresh limiter objects, `keys` fresh keys 0..keys-1
-     take{k,code,err,cx}   Take / TakeCtx on key k answered (code, err != nil); cx: the call was
-                           made with an already cancelled context
+     take{k,code,err,cx,s0,s1}  Take / TakeCtx on key k answered (code, err != nil); cx: the call was
+                           made with an already cancelled context; s0 / s1: the local wall-clock
+                           second (unix + zone offset, minus a per-trace base that is a multiple of
+                           `period`) the driver read just before / just after the call - the call's
+                           own clock read (Align(): the time left in the aligned period) showed one of
+                           s0..s1
      adv{d}                FastForward by d ms
      fault{mode}           "flaky" is logged BEFORE the harness switches the store, "up"/"down"
                            AFTER the switch took effect
-   Concurrent Takes are logged as callStart{c,k} before the call and callEnd{c,code,err} after
-   it returned; a concurrent clock jump as callStart{c,k=-1,d} / callEnd.  The atomic step of
+   Concurrent Takes are logged as callStart{c,k,s0} before the call and callEnd{c,code,err,s1}
+   after it returned; a concurrent clock jump as callStart{c,k=-1,d} / callEnd.  The atomic step of
    call c (the run of the Lua script inside the store, or the jump) is the silent action
    Lin(c), which TLC places between the two - it finds the linearisation, if there is one.  *)
 EXTENDS PeriodLimit, TraceKit
@@ -21,6 +25,9 @@ tvars == <<period, quota, align, pnow, pup, cnt, exp, l, pend>>
 E == Trace[l]
 IsEvent(e) == l <= Len(Trace) /\ E.e = e /\ l' = l + 1
 
+\* the seconds a call's clock read may have shown, from the driver's reads before and after it
+Secs(a, b) == IF a <= b THEN a..b ELSE b..a
+
 TReset ==
   /\ IsEvent("reset")
   /\ period' = E.period /\ quota' = E.quota /\ align' = E.align
@@ -29,7 +36,8 @@ TReset ==
   /\ pend' = <<>>
 
 TTake  == /\ IsEvent("take")
-          /\ IF E.cx THEN E.err /\ TakeCtx(E.k, E.code) ELSE Take(E.k, E.code, E.err)
+          /\ IF E.cx THEN E.err /\ TakeCtx(E.k, E.code, Secs(E.s0, E.s1))
+                     ELSE Take(E.k, E.code, E.err, Secs(E.s0, E.s1))
           /\ UNCHANGED pend
 TAdv   == IsEvent("adv") /\ PAdvance(E.d) /\ UNCHANGED pend
 TFault == IsEvent("fault") /\ PFault(E.mode) /\ UNCHANGED pend
@@ -44,7 +52,7 @@ TCallStart ==
   /\ IsEvent("callStart")
   /\ E.c \notin DOMAIN pend
   /\ pend' = [c \in DOMAIN pend \cup {E.c} |->
-                IF c = E.c THEN [k |-> E.k, d |-> E.d, done |-> FALSE] ELSE pend[c]]
+                IF c = E.c THEN [k |-> E.k, d |-> E.d, s0 |-> E.s0, done |-> FALSE] ELSE pend[c]]
   /\ UNCHANGED pvars
 
 Lin(c) ==
@@ -52,7 +60,7 @@ Lin(c) ==
   /\ LET j == EndIdx(c) IN
        /\ j # 0
        /\ IF pend[c].k < 0 THEN PAdvance(pend[c].d)
-                           ELSE Take(pend[c].k, Trace[j].code, Trace[j].err)
+                           ELSE Take(pend[c].k, Trace[j].code, Trace[j].err, Secs(pend[c].s0, Trace[j].s1))
   /\ pend' = [pend EXCEPT ![c].done = TRUE]
   /\ UNCHANGED l
 
